@@ -53,6 +53,8 @@ REGRESSION = [
 ]
 
 
+MANIFEST = {'technique': 'Coq proof (rectangularity invariant for every operation and every history by fold_left induction, rejected operations leave the document unchanged, lookup laws, array-program refinement) + step-by-step differential check of histories + write/parse oracle on gemmi', 'text': 'The Gallina model is the reference model the property names. Theorems: Rect (every loop has a whole number of rows) is preserved by every documented editing operation with any arguments, hence by every history of any length from any rectangular document; an operation that ends in an error leaves the document exactly unchanged (for the operations with the strong guarantee; init_loop/find_or_add/remove_rows modify before throwing and are covered by Rect); find_value after set_pair returns the value, other tags (case-insensitively) untouched; row counts after add/pop; Table handles are well-formed (no dangling reference); no operation reaches undefined behaviour (_partial: duplicated tags in one pairs table excluded); vector_remove_column as an index-level array program refines the list spec. Histories of 1-60 operations from empty/generated/parsed documents with valid and invalid arguments are replayed on gemmi (ASan) and on the extracted model, comparing status and full document after every step; oracle on gemmi: rectangular after every step, final write -> parse identical; failing histories are shrunk.', 'note': 'Trusted: Coq kernel; extraction; harness (ASan). No axioms. Assumptions: handles used immediately, distinct tags per finder call, sizes far below 2^31, frames/comments opaque. Parser and writer are property C01.'}
+
 def step_buckets(chk, spec, res):
     """Record the distribution op-class x status from one harness result."""
     ops = spec.split(';')[1:]
